@@ -4,6 +4,8 @@ pub(crate) trait BaseField {
     fn ty(&self) -> &TypeRef;
 
     fn argument(&self, name: &str) -> Option<&InputValue>;
+
+    fn arguments(&self) -> Vec<&InputValue>;
 }
 
 pub(crate) trait BaseContainer {
@@ -25,6 +27,11 @@ impl BaseField for Field {
     #[inline]
     fn argument(&self, name: &str) -> Option<&InputValue> {
         self.arguments.get(name)
+    }
+
+    #[inline]
+    fn arguments(&self) -> Vec<&InputValue> {
+        self.arguments.values().collect()
     }
 }
 
@@ -55,6 +62,11 @@ impl BaseField for InterfaceField {
     #[inline]
     fn argument(&self, name: &str) -> Option<&InputValue> {
         self.arguments.get(name)
+    }
+
+    #[inline]
+    fn arguments(&self) -> Vec<&InputValue> {
+        self.arguments.values().collect()
     }
 }
 
